@@ -1095,7 +1095,7 @@ namespace bluetoe {
                 return false;
             }
 
-            std::uint8_t size() const
+            std::size_t size() const
             {
                 return current_ - begin_;
             }
@@ -1232,7 +1232,7 @@ namespace bluetoe {
             {
             }
 
-            std::uint8_t size() const
+            std::size_t size() const
             {
                 return current_ - begin_;
             }
